@@ -135,6 +135,86 @@ pub fn straddle_inputs(dense: bool) -> Vec<Input> {
             }
         }
     }
+    v.extend(mirror_probe_inputs());
+    v
+}
+
+/// Probes for the copy of the first 257 dictionary bytes that the compressor keeps past the end
+/// of its 32 KiB ring (read unmasked near the wrap). W = 32768*k; M = the 12 bytes that sat at
+/// ring offset 0.. one window earlier (input[W-32768..]). The input plants the phrase v^a ++ M
+/// 300 bytes before W and ends the window with v^a, followed by *different* bytes Y: a compressor
+/// whose copy is stale at the wrap sees v^a ++ M there and codes Y as a repeat of the phrase.
+/// Prefix R (incompressible, >= 59 000 bytes: compress_to_vec's output vector fills up in the first
+/// block flush and the compressor is re-entered with its 4096-byte lookahead chunks out of step)
+/// or T (text); everything from 59 000 on is compressible so the blocks are not stored.
+pub fn mirror_probe_inputs() -> Vec<Input> {
+    let mut v = vec![];
+    let p = 0xEEu8;
+    for k in [1usize, 2, 3] {
+        let w = 32768 * k;
+        for a in [1usize, 2] {
+            for pre in ["R", "T"] {
+                let mut d: Vec<u8> = if pre == "R" {
+                    let mut x = shape_named("r", &[(Seg::R, w.min(59_000))]).data;
+                    if w > 59_000 {
+                        x.extend(shape_named("t", &[(Seg::T, w - 59_000)]).data);
+                    }
+                    x
+                } else {
+                    shape_named("t", &[(Seg::T, w)]).data
+                };
+                // keep v out of the neighbourhood so the planted phrase is the only candidate
+                for b in d[w - 700..].iter_mut() {
+                    if *b == p {
+                        *b = 0x20;
+                    }
+                }
+                let m: Vec<u8> = d[w - 32768..w - 32768 + 12].to_vec();
+                let at = w - 300;
+                for i in 0..a {
+                    d[at + i] = p;
+                }
+                d[at + a..at + a + 12].copy_from_slice(&m);
+                for i in 0..a {
+                    d[w - a + i] = p;
+                }
+                // Y: text that differs from M
+                let mut y = shape_named("y", &[(Seg::T, 700)]).data;
+                if y[0] == m[0] {
+                    y[0] ^= 0x55;
+                }
+                d.extend(y);
+                v.push(Input { name: format!("mirror:k{}a{}{}", k, a, pre), data: d });
+            }
+        }
+    }
+    v
+}
+
+/// Inputs for a Full flush issued after the 32 KiB dictionary has wrapped: (input, cut). The bytes
+/// after the cut start with material that is only cheap to code by referring to the bytes just
+/// *before* the cut: a run continuing the last pre-flush byte ("run"), or phrases that begin with
+/// the last pre-flush byte ("trig": S p S p S with p = that byte).
+pub fn wrapfull_inputs() -> Vec<(Input, usize)> {
+    let mut v = vec![];
+    for l in [32768 + 5usize, 40_000, 65536 + 3, 98304 + 7] {
+        for kind in ["run", "trig"] {
+            let mut d = shape_named("t", &[(Seg::T, l - 3)]).data;
+            let p = 0xEEu8;
+            d.extend_from_slice(&[p, p, p]);
+            if kind == "run" {
+                d.extend(std::iter::repeat(p).take(300));
+            } else {
+                let s = [0xA1u8, 0xB2, 0xC3, 0xD4, 0xE5, 0xF6, 0x97, 0x88];
+                for _ in 0..4 {
+                    d.extend_from_slice(&s);
+                    d.push(p);
+                }
+            }
+            d.extend(shape_named("t2", &[(Seg::T, 200)]).data);
+            v.push((Input { name: format!("wrapfull:L{}:{}", l, kind), data: d }, l));
+        }
+    }
     v
 }
 
